@@ -196,7 +196,7 @@ def _train_bias_row_cholesky(
     nf = other.shape[1]
 
     if nui == 0:
-        return torch.zeros(nf)
+        return torch.zeros(nf, dtype=other.dtype, device=other.device)
 
     M = other[items, :]
     regI = torch.eye(nf, dtype=other.dtype, device=other.device) * reg
